@@ -155,11 +155,9 @@ type caseStats struct {
 func inputChunkings(x any, quick bool) []string {
 	modes := []string{"1", "2", "3e"}
 	if m, ok := x.(map[string]any); ok {
+		modes = append(modes, "3z")
 		if len(m) >= 2 {
 			modes = append(modes, "2k")
-		}
-		if !quick {
-			modes = append(modes, "3n")
 		}
 	}
 	if !quick {
